@@ -84,12 +84,13 @@ OPTS = list(itertools.product([True, False], repeat=4))  # parserfns, invoke, pr
 seen_cases = set()
 samples = []
 
-ctx = new_ctx(TEMPLATES)
+ctx = new_ctx(TEMPLATES, parser_function_aliases={"#invoque": "#invoke", "#si": "#if", "minus": "lc"})
+ATOMS += ["{{#invoque:m|f}}", "{{#invoque:m}}", "{{#si:x|{{a}}|n}}", "{{minus:ABC}}"]
 mon = Monitor(SEL, on_enter, on_exit, on_unwind)
 mon.start()
 try:
     for pi, page in enumerate(pages()):
-        opts = OPTS[pi % len(OPTS)] if (tier == "quick" and "#invoke" not in page) else None
+        opts = OPTS[pi % len(OPTS)] if (tier == "quick" and "#invo" not in page) else None
         for o in ([opts] if opts else OPTS):
             pf, inv, pre, hooks = o
             current["page"], current["opts"] = page, dict(expand_parserfns=pf, expand_invoke=inv,
@@ -142,6 +143,30 @@ try:
                 if len(samples) < 5:
                     samples.append({"page": page, "options": current["opts"], "repetitions": reps,
                                     "messages": {k: len(v) for k, v in ret.items()}})
+    # every recorder appends one well-formed record to its own list only; start_page empties all five
+    ctx.start_page("Pa")
+    ctx.start_section("S1")
+    names = {"error": "errors", "warning": "warnings", "debug": "debugs", "note": "notes",
+             "wiki_notice": "wiki_notices"}
+    for fn, lst in names.items():
+        before = {k: len(v) for k, v in ctx.to_return().items()}
+        with quiet_stdout():
+            getattr(ctx, fn)("msg-" + fn, sortid="verif/1")
+        after = ctx.to_return()
+        for k, v in after.items():
+            exp = before[k] + (1 if k == lst else 0)
+            if len(v) != exp:
+                fail(f"Wtp.{fn}#post#appends-one-record-to-{lst}-only", f"{k}: {before[k]} -> {len(v)}")
+        rec = after[lst][-1] if after[lst] else {}
+        if set(rec) != KEYS or rec.get("title") != "Pa" or rec.get("section") != "S1" or \
+                rec.get("path") != tuple(ctx.expand_stack) or rec.get("msg") != "msg-" + fn:
+            fail(f"Wtp.{fn}#post#record-shape", f"record {rec}")
+    ctx.start_page("Pb")
+    left = {k: len(v) for k, v in ctx.to_return().items() if v}
+    if left or ctx.section is not None or ctx.subsection is not None or tuple(ctx.expand_stack) != ("Pb",):
+        fail("Wtp.start_page#post#lists-emptied-and-path-reset", f"after start_page: {left}, path {ctx.expand_stack}",
+             "stale-messages")
+    evaluations += 6
 finally:
     mon.stop()
 
